@@ -225,17 +225,31 @@ pub fn names() -> Names {
     Names { by_name }
 }
 
+// the owned `_to_string` variants exist only when the crate is built with `alloc`
+#[cfg(feature = "elf_alloc")]
+macro_rules! own {
+    ($e:expr) => {
+        Some($e)
+    };
+}
+#[cfg(not(feature = "elf_alloc"))]
+macro_rules! own {
+    ($e:expr) => {
+        None
+    };
+}
+
 fn to_str_fn(which: u64, v: i128) -> (Option<&'static str>, Option<String>, &'static str) {
     use elf::to_str::*;
     match which {
-        0 => (e_osabi_to_str(v as u8), Some(e_osabi_to_string(v as u8)), "e_osabi"),
-        1 => (e_type_to_str(v as u16), Some(e_type_to_string(v as u16)), "e_type"),
-        2 => (e_machine_to_str(v as u16), Some(e_machine_to_string(v as u16)), "e_machine"),
-        3 => (sh_type_to_str(v as u32), Some(sh_type_to_string(v as u32)), "sh_type"),
-        4 => (p_type_to_str(v as u32), Some(p_type_to_string(v as u32)), "p_type"),
-        5 => (st_symtype_to_str(v as u8), Some(st_symtype_to_string(v as u8)), "st_symtype"),
-        6 => (st_bind_to_str(v as u8), Some(st_bind_to_string(v as u8)), "st_bind"),
-        7 => (st_vis_to_str(v as u8), Some(st_vis_to_string(v as u8)), "st_vis"),
+        0 => (e_osabi_to_str(v as u8), own!(e_osabi_to_string(v as u8)), "e_osabi"),
+        1 => (e_type_to_str(v as u16), own!(e_type_to_string(v as u16)), "e_type"),
+        2 => (e_machine_to_str(v as u16), own!(e_machine_to_string(v as u16)), "e_machine"),
+        3 => (sh_type_to_str(v as u32), own!(sh_type_to_string(v as u32)), "sh_type"),
+        4 => (p_type_to_str(v as u32), own!(p_type_to_string(v as u32)), "p_type"),
+        5 => (st_symtype_to_str(v as u8), own!(st_symtype_to_string(v as u8)), "st_symtype"),
+        6 => (st_bind_to_str(v as u8), own!(st_bind_to_string(v as u8)), "st_bind"),
+        7 => (st_vis_to_str(v as u8), own!(st_vis_to_string(v as u8)), "st_vis"),
         8 => (ch_type_to_str(v as u32), None, "ch_type"),
         _ => (d_tag_to_str(v as i64), None, "d_tag"),
     }
@@ -299,6 +313,9 @@ fn totality(ctx: &mut Ctx, v: u64) {
     let _ = e_type_to_human_str(v as u16);
     let _ = e_machine_to_human_str(v as u16);
     let _ = note_abi_tag_os_to_str(v as u32);
+    #[cfg(not(feature = "elf_alloc"))]
+    let s = format!("{}", v as u32);
+    #[cfg(feature = "elf_alloc")]
     let s = p_flags_to_string(v as u32);
     ctx.eval();
     if (v as u32) >= 8 {
